@@ -75,7 +75,8 @@ Definition code_ipart (s : nkind) (x : Z) : Z :=
   | NI _ => x
   | NFix64 => Z.quot x e8
   | NUFix64 => x / e8
-  | NFix128 | NUFix128 => x / e24        (* floor *)
+  | NFix128 => Z.quot x e24
+  | NUFix128 => x / e24
   end.
 
 Lemma nin_signed n x : n_in_range (NI (KSigned n)) x <-> - 2 ^ (n - 1) <= x <= 2 ^ (n - 1) - 1.
@@ -111,10 +112,13 @@ Proof.
     lia.
   - destruct Hr as [H0 H1]; simpl in H0, H1. rewrite ?p63, ?p64, ?p127, ?p128 in *. split; [reflexivity|]. unfold e8. lia.
   - destruct Hr as [H0 H1]; simpl in H0, H1. rewrite ?p63, ?p64, ?p127, ?p128 in *.
-    assert (E: - 9223372036854775808 <= x / e24 <= 9223372036854775807) by (unfold e24; lia).
-    destruct (is_int64 (x / e24)) eqn:I.
+    assert (E: - 9223372036854775808 <= Z.quot x e24 <= 9223372036854775807).
+    { unfold e24. destruct (Z.leb_spec 0 x).
+      - rewrite Z.quot_div_nonneg by lia. lia.
+      - rewrite quot_neg_pos by lia. lia. }
+    destruct (is_int64 (Z.quot x e24)) eqn:I.
     + rewrite big_int64_id by (rewrite p63; lia). split; [reflexivity|lia].
-    + exfalso. assert (is_int64 (x / e24) = true) by (apply is_int64_spec; rewrite p63; lia). congruence.
+    + exfalso. assert (is_int64 (Z.quot x e24) = true) by (apply is_int64_spec; rewrite p63; lia). congruence.
   - destruct Hr as [H0 H1]; simpl in H0, H1. rewrite ?p63, ?p64, ?p127, ?p128 in *.
     assert (E: - 9223372036854775808 <= x / e24 <= 9223372036854775807) by (unfold e24; lia).
     destruct (is_int64 (x / e24)) eqn:I.
@@ -129,26 +133,14 @@ Proof. destruct s; simpl; try discriminate. eauto. Qed.
 Lemma code_ipart_big s x : is_big s = true -> code_ipart s x = x.
 Proof. intro H. destruct (is_big_int s H) as [k ->]. reflexivity. Qed.
 
-(* when the code's integer part is the truncation toward zero the property asks for *)
-Definition floor_defect (s : nkind) (x : Z) : Prop :=
-  s = NFix128 /\ x < 0 /\ x mod e24 <> 0.
-
+(* the integer part the code reads is the truncation toward zero the property asks for *)
 Lemma code_ipart_trunc s x :
-  n_in_range s x -> ~ floor_defect s x -> code_ipart s x = Z.quot x (scale s).
+  n_in_range s x -> code_ipart s x = Z.quot x (scale s).
 Proof.
-  intros Hr Hd. destruct s; simpl.
+  intros Hr. destruct s; simpl.
   - rewrite Z.quot_1_r. reflexivity.
   - reflexivity.
   - destruct Hr as [H0 _]; simpl in H0. rewrite Z.quot_div_nonneg by (unfold e8; lia). reflexivity.
-  - destruct (Z.leb_spec 0 x).
-    + rewrite Z.quot_div_nonneg by (unfold e24; lia). reflexivity.
-    + assert (x mod e24 = 0).
-      { destruct (Z.eq_dec (x mod e24) 0); [assumption|]. exfalso. apply Hd. repeat split; assumption. }
-      rewrite quot_neg_pos by (unfold e24; lia). unfold e24 in *. lia.
+  - reflexivity.
   - destruct Hr as [H0 _]; simpl in H0. rewrite Z.quot_div_nonneg by (unfold e24; lia). reflexivity.
 Qed.
-
-(* on the defect inputs the code floors: one less than the truncation *)
-Lemma code_ipart_floor_defect x :
-  x < 0 -> x mod e24 <> 0 -> code_ipart NFix128 x = Z.quot x e24 - 1.
-Proof. intros. simpl. rewrite quot_neg_pos by (unfold e24; lia). unfold e24 in *. lia. Qed.
